@@ -70,7 +70,7 @@ theorem withNewCas_row?_other_coll (s : State) (c c' k' : String) (fn : TxnFn) (
 
 /-- The outcome of a single-row write, read off the row function. -/
 inductive RowOutcome (f : RowFn) (s : State) (c k : String) (s' : State) (out : Out) : Prop where
-  | noColl (h : s.coll? c = none) (hs : s' = s) (ho : out.err = .closed)
+  | noColl (h : s.coll? c = none) (hrow : ∀ c' k', s'.row? c' k' = s.row? c' k') (ho : out.err = .closed)
   | failed (hf : f (hlcNow s.hlc s.phys) s.now (s.row? c k) = .inl out) (hrow : ∀ c' k', s'.row? c' k' = s.row? c' k')
   | unchanged (ev : Option Event) (hf : f (hlcNow s.hlc s.phys) s.now (s.row? c k) = .inr (none, ev, out))
       (hrow : ∀ c' k', s'.row? c' k' = s.row? c' k')
@@ -82,7 +82,7 @@ theorem withNewCas_liftRow_outcome (s : State) (c k : String) (f : RowFn) :
     RowOutcome f s c k (withNewCas s c (liftRow k f)).1 (withNewCas s c (liftRow k f)).2 := by
   unfold withNewCas
   cases hx : s.coll? c with
-  | none => exact .noColl hx rfl rfl
+  | none => exact .noColl hx (fun _ _ => rfl) rfl
   | some x =>
     simp only
     have hrow : s.row? c k = x.docs.get? k := by rw [State.row?_def, hx]; rfl
